@@ -165,10 +165,32 @@ def build_circuit(rng, a, fork_style=None, branchforks=None, name='rnd'):
     return c
 
 
+def permute_circuit(rng, c, name=None):
+    """The same circuit with its nodes and lines created in a random order (explicit pins, same io order): node and line
+    indices become arbitrary, e.g. forks precede cells and a state element is the last node."""
+    p = Circuit(name or c.name)
+    order = list(c.nodes)
+    rng.shuffle(order)
+    new = {}
+    for n in order:
+        new[n.index] = Node(p, n.name, n.kind)
+    lines = list(c.lines)
+    rng.shuffle(lines)
+    for l in lines:
+        Line(p, (new[l.driver.index], l.driver_pin), (new[l.reader.index], l.reader_pin))
+    for n in c.io_nodes:
+        p.io_nodes.append(new[n.index])
+    return p
+
+
 def gen_circuit(rng, **kw):
     bkw = {k: kw.pop(k) for k in ('fork_style', 'branchforks') if k in kw}
+    permute = kw.pop('permute', False)
     a = gen_abstract(rng, **kw)
-    return build_circuit(rng, a, **bkw), a
+    c = build_circuit(rng, a, **bkw)
+    if permute:
+        c = permute_circuit(rng, c)
+    return c, a
 
 
 # ---- rendering as Coq -----------------------------------------------------------------------------
